@@ -385,7 +385,8 @@ Lemma vmin_R_spec h t : In (vmin ROps h t) (h :: t) /\ forall v, In v (h :: t) -
 Proof.
   unfold vmin. revert h. induction t as [|a t IH]; intros h.
   - cbn. split; [left; reflexivity | intros v [<- | []]; lra].
-  - cbn [fold_left]. cbn [fltb ROps]. unfold Rltb at 1. destruct (Rlt_dec a h) as [Hlt | Hge].
+  - cbn [fold_left]. change (fltb ROps a h) with (Rltb a h).
+    destruct (Rltb a h) eqn:Elt; [apply Rltb_true in Elt | apply Rltb_false in Elt].
     + destruct (IH a) as [Hin Hle]. split.
       * destruct Hin as [E | Hin]; [right; left; exact E | right; right; exact Hin].
       * intros v [<- | [<- | Hv]].
@@ -404,7 +405,8 @@ Lemma vmax_R_spec h t : In (vmax ROps h t) (h :: t) /\ forall v, In v (h :: t) -
 Proof.
   unfold vmax. revert h. induction t as [|a t IH]; intros h.
   - cbn. split; [left; reflexivity | intros v [<- | []]; lra].
-  - cbn [fold_left]. cbn [fltb ROps]. unfold Rltb at 1. destruct (Rlt_dec h a) as [Hlt | Hge].
+  - cbn [fold_left]. change (fltb ROps h a) with (Rltb h a).
+    destruct (Rltb h a) eqn:Elt; [apply Rltb_true in Elt | apply Rltb_false in Elt].
     + destruct (IH a) as [Hin Hle]. split.
       * destruct Hin as [E | Hin]; [right; left; exact E | right; right; exact Hin].
       * intros v [<- | [<- | Hv]].
